@@ -284,7 +284,6 @@ type sys struct {
 	sizes    map[string]int64
 	lastAck  bool
 	everDrop int64 // dropped entries of earlier writers
-	fullHits int64 // queue-full arms taken during the last op
 	err      string
 }
 
@@ -331,20 +330,16 @@ func (s *sys) settleWAL() {
 	}
 	deadline := time.Now().Add(20 * time.Second)
 	if s.paused {
-		if !s.inHand && s.w.VerifC07ChanLen() > 0 {
-			for s.w.VerifC07ChanLen() > s.cc.walBuf-0 || s.w.VerifC07ChanLen() > 0 && !s.inHand {
-				// the goroutine takes exactly one entry and blocks on the mutex
-				n := s.w.VerifC07ChanLen()
-				time.Sleep(20 * time.Microsecond)
-				if s.w.VerifC07ChanLen() < n || s.w.VerifC07ChanLen() == 0 {
-					s.inHand = true
-					break
-				}
+		// the stalled goroutine takes exactly one entry and then blocks on the mutex
+		if !s.inHand {
+			for s.w.VerifC07ChanLen() > 0 {
 				if time.Now().After(deadline) {
 					s.fail("stalled WAL writer did not take an entry")
 					return
 				}
+				time.Sleep(20 * time.Microsecond)
 			}
+			s.inHand = true
 		}
 		return
 	}
